@@ -1226,6 +1226,15 @@ namespace awkward {
         }
         else if (RecordArray* raw =
                  dynamic_cast<RecordArray*>(tofix.get())) {
+          if (branchdepth.first) {
+            // fields of different depths: some were reduced at this level
+            // already and are not lists to be fixed
+            throw std::runtime_error(
+              std::string("reduce_next with branching depth (records with "
+                          "fields of different depths) below an option-type "
+                          "or indexed node is not supported")
+              + FILENAME(__LINE__));
+          }
           ContentPtrVec contents;
           for (auto content : raw->contents()) {
             contents.push_back(fix_offsets(content));
